@@ -1,8 +1,8 @@
 \* generated by props/_handshake.py (table CFGS) -- do not edit by hand
 SPECIFICATION Spec
 CONSTANTS
-  Nodes <- NodesM
-  Conns <- ConnsM
+  Nodes = {"A", "B", "M", "O"}
+  Conns = {"c1", "o1", "o2", "a1", "m1", "m2", "o4", "o8"}
   Cl <- ClM
   Sv <- SvM
   Eph <- EphM
